@@ -3,7 +3,8 @@
 For a function whose body is
     let mut v = e; [let mut w: T = e;] v = e; v ^= e; ...; v
 the statements are parsed (tiny precedence parser over the subset
-  ident | literal | (e) | !e | e.wrapping_{add,sub,mul}(e) | e ^ e | e & e | e | e | e << c | e >> c )
+  ident | literal | (e) | !e | e.wrapping_{add,sub,mul}(e) | e.saturating_{add,sub}(e)
+  | e.checked_{add,sub}(e).unwrap_or_default() | e.checked_{add,sub}(e).unwrap_or(e) | e ^ e | e & e | e | e | e << c | e >> c )
 and four renderings are produced, all *generated from the repository text*:
 
   raw      the statement text as written (used for the spec twin the real body is verified against)
@@ -74,6 +75,9 @@ class Parser:
         while self.peek() is not None and self.peek().text == ".":
             self.eat(".")
             m = self.eat()
+            if m.text in ("checked_sub", "checked_add"):
+                node = self.checked_tail(m.text, node)
+                continue
             if m.text not in ("wrapping_add", "wrapping_sub", "wrapping_mul", "saturating_sub", "saturating_add"):
                 raise ExtractError("unsupported method `%s` in straight-line function" % m.text)
             self.eat("(")
@@ -81,6 +85,26 @@ class Parser:
             self.eat(")")
             node = Node("call", m.text, node, a)
         return node
+
+    def checked_tail(self, op, recv):
+        # e.checked_{add,sub}(a) is only accepted when its Option is consumed at once by
+        # .unwrap_or_default() or .unwrap_or(d): the value on overflow is then 0 resp. d.
+        self.eat("(")
+        a = self.expr()
+        self.eat(")")
+        self.eat(".")
+        u = self.eat()
+        if u.text == "unwrap_or_default":
+            self.eat("(")
+            self.eat(")")
+            d = Node("lit", "0")
+        elif u.text == "unwrap_or":
+            self.eat("(")
+            d = self.expr()
+            self.eat(")")
+        else:
+            raise ExtractError("unsupported method `%s` after %s in straight-line function" % (u.text, op))
+        return Node("checked", op, recv, a, d)
 
 
 def lit_value(s):
@@ -112,6 +136,11 @@ def render(n, mode, ty):
             return "(if add(%s, %s) < %s { sub(0%s, 1%s) } else { add(%s, %s) })" % (a, b, a, ty, ty, a, b)
         f = {"wrapping_add": "add", "wrapping_sub": "sub", "wrapping_mul": "mul"}[n.args[0]]
         return "%s(%s, %s)" % (f, a, b)
+    if k == "checked":
+        a, b, d = (render(x, mode, ty) for x in n.args[1:4])
+        if n.args[0] == "checked_sub":
+            return "(if %s < %s { %s } else { sub(%s, %s) })" % (a, b, d, a, b)
+        return "(if add(%s, %s) < %s { %s } else { add(%s, %s) })" % (a, b, a, d, a, b)
     if k == "bin":
         op, a, b = n.args
         if op in ("<<", ">>") and b.kind != "lit":
@@ -207,9 +236,38 @@ def parse_groups(s):
     return out
 
 
+def has_checked(n):
+    return n.kind == "checked" or any(isinstance(a, Node) and has_checked(a) for a in n.args)
+
+
+def render_asis(n, ty):
+    """source syntax again, except that a consumed checked_{add,sub} (an exec-only Option chain, not callable
+    in a spec function) becomes the conditional it denotes; the real body is then verified against it
+    through vstd's own specifications of checked_*, unwrap_or and unwrap_or_default."""
+    k = n.kind
+    if k == "var":
+        return n.args[0]
+    if k == "lit":
+        return "%d%s" % (lit_value(n.args[0]), ty)
+    if k == "paren":
+        return "(" + render_asis(n.args[0], ty) + ")"
+    if k == "not":
+        return "(!%s)" % render_asis(n.args[0], ty)
+    if k == "call":
+        return "%s.%s(%s)" % (render_asis(n.args[1], ty), n.args[0], render_asis(n.args[2], ty))
+    if k == "checked":
+        a, b, d = (render_asis(x, ty) for x in n.args[1:4])
+        if n.args[0] == "checked_sub":
+            return "(if (%s) < (%s) { %s } else { (%s).wrapping_sub(%s) })" % (a, b, d, a, b)
+        return "(if (%s).wrapping_add(%s) < (%s) { %s } else { (%s).wrapping_add(%s) })" % (a, b, a, d, a, b)
+    if k == "bin":
+        return "(%s %s %s)" % (render_asis(n.args[1], ty), n.args[0], render_asis(n.args[2], ty))
+    raise ExtractError("internal: node kind " + k)
+
+
 def lets(stmts, mode, ty):
     if mode == "raw":
-        return " ".join("let %s = %s;" % (s.var, s.raw) for s in stmts)
+        return " ".join("let %s = %s;" % (s.var, render_asis(s.node, ty) if has_checked(s.node) else s.raw) for s in stmts)
     return " ".join("let %s = %s;" % (s.var, render(s.node, mode, ty)) for s in stmts)
 
 
@@ -225,6 +283,8 @@ def check_group_closed(stmts, state, extra_in):
             walk(n.args[0])
         elif n.kind == "call":
             walk(n.args[1]); walk(n.args[2])
+        elif n.kind == "checked":
+            walk(n.args[1]); walk(n.args[2]); walk(n.args[3])
         elif n.kind == "bin":
             walk(n.args[1]); walk(n.args[2])
     for s in stmts:
@@ -299,6 +359,8 @@ def gen_invpair(asm, args):
                 acc.append(("not", n.args[0], None))
         elif n.kind == "call":
             collect(n.args[1], acc); collect(n.args[2], acc)
+        elif n.kind == "checked":
+            collect(n.args[1], acc); collect(n.args[2], acc); collect(n.args[3], acc)
         elif n.kind == "bin":
             collect(n.args[1], acc); collect(n.args[2], acc)
             if n.args[0] == "<<":
